@@ -5,10 +5,9 @@
 //! ordinary text) that contain the signing token at least once; then single-character
 //! substitutions, insertions and deletions of the signed file at every position (exhaustive for
 //! short files, sampled otherwise).
-//! Oracle: an independent md5 (md-5 crate called by the harness): the signed file must be the
-//! content with every token replaced by `SignedSource<<md5(content)>>`, `is_valid_signature` must
-//! accept it, and must reject every edit that leaves the 32 hex digits of the signature alone.
-use md5::{Digest, Md5};
+//! Oracle: round trip (`is_valid_signature(sign_file(c))`) and edit sensitivity: every edit that
+//! leaves alone the 32 hex digits of the signature(s) that signing put into the file must make
+//! verification fail. Nothing is assumed about how signing computes or places the signature.
 use proptest::prelude::*;
 use serde_json::{json, Value};
 use signedsource::{is_valid_signature, try_sign_file, NEWTOKEN, SIGNING_TOKEN};
@@ -65,18 +64,33 @@ fn render(pieces: &[Piece]) -> String {
     s
 }
 
-fn md5_hex(s: &str) -> String {
-    let mut h = Md5::new();
-    h.update(s.as_bytes());
-    hex::encode(h.finalize())
+/// All `SignedSource<<hex32>>` occurrences: (byte offset of the first digit, the 32 digits).
+fn signature_like(text: &str) -> Vec<(usize, &str)> {
+    let pre = "SignedSource<<";
+    let mut out = vec![];
+    for (i, _) in text.match_indices(pre) {
+        let d = i + pre.len();
+        if let Some(hex) = text.get(d..d + 32) {
+            if hex.bytes().all(|b| b.is_ascii_digit() || (b'a'..=b'f').contains(&b)) && text[d + 32..].starts_with(">>") {
+                out.push((d, hex));
+            }
+        }
+    }
+    out
 }
 
-/// Byte ranges of the 32 hex digits of every occurrence of the real signature.
-fn signature_digit_ranges(signed: &str, sig: &str) -> Vec<(usize, usize)> {
-    let needle = format!("SignedSource<<{sig}>>");
-    signed
-        .match_indices(&needle)
-        .map(|(i, _)| (i + "SignedSource<<".len(), i + "SignedSource<<".len() + 32))
+/// Byte ranges of the 32 hex digits of every occurrence of the signature that signing put into the
+/// file: the `SignedSource<<hex>>` values that occur more often in the signed file than in the
+/// content (no assumption on how many tokens signing replaces or which hash it uses).
+fn signature_digit_ranges(signed: &str, content: &str) -> Vec<(usize, usize)> {
+    let before = signature_like(content);
+    let after = signature_like(signed);
+    after
+        .iter()
+        .filter(|(_, hex)| {
+            after.iter().filter(|(_, h)| h == hex).count() > before.iter().filter(|(_, h)| h == hex).count()
+        })
+        .map(|(d, _)| (*d, *d + 32))
         .collect()
 }
 
@@ -168,14 +182,6 @@ fn check_sign(content: &str, cause: &str) -> Result<String, Fail> {
         }
         Err(p) => return Err(Fail::new(format!("sign-panic:{cause}"), format!("{p}\ncontent={content:?}"))),
     };
-    let sig = md5_hex(content);
-    let expected = content.replace(NEWTOKEN, &format!("SignedSource<<{sig}>>"));
-    if signed != expected {
-        return Err(Fail::new(
-            format!("signed-text-differs:{cause}"),
-            format!("content={content:?}\nsigned={signed:?}\nexpected={expected:?}"),
-        ));
-    }
     match vcore::catch_panic(|| is_valid_signature(&signed)) {
         Ok(true) => Ok(signed),
         Ok(false) => Err(Fail::new(
@@ -186,8 +192,8 @@ fn check_sign(content: &str, cause: &str) -> Result<String, Fail> {
     }
 }
 
-fn check_edit(signed: &str, sig: &str, e: &Edit, cause: &str) -> Result<bool, Fail> {
-    let ranges = signature_digit_ranges(signed, sig);
+fn check_edit(signed: &str, content: &str, e: &Edit, cause: &str) -> Result<bool, Fail> {
+    let ranges = signature_digit_ranges(signed, content);
     if edit_touches(e, signed, &ranges) {
         return Ok(false);
     }
@@ -217,7 +223,7 @@ fn run_input(input: &Value) -> Result<(), Fail> {
                 "insert" => Edit::Insert(at, ch),
                 _ => Edit::Delete(at),
             };
-            check_edit(&signed, &md5_hex(&content), &edit, "replay").map(|_| ())
+            check_edit(&signed, &content, &edit, "replay").map(|_| ())
         } else {
             Ok(())
         }
@@ -241,7 +247,7 @@ pub fn run(args: &Args) {
          signature digits; distinct by (content, edit)",
     );
     report.engine("pbt");
-    report.assumption("md-5 crate used by the harness is an independent, correct MD5");
+    report.assumption("an edited file that still verifies by an MD5 collision is out of scope");
 
     if let Some(path) = &args.replay {
         let v = vcore::read_replay(path);
@@ -277,7 +283,6 @@ pub fn run(args: &Args) {
             report.case(if nontrivial { Some(content.as_str()) } else { None }, &labels);
             report.sample(cause, 2, || json!({"content": content}));
             let signed = check_sign(&content, cause)?;
-            let sig = md5_hex(&content);
             let n = signed.chars().count();
             // positions: all when short, else a deterministic sample derived from the generated salt
             let positions: Vec<usize> = if n <= full_edit_limit {
@@ -288,7 +293,7 @@ pub fn run(args: &Args) {
             for (k, &pos) in positions.iter().enumerate() {
                 let ch = EDIT_CHARS[(*salt as usize).wrapping_add(k) % EDIT_CHARS.len()];
                 for e in [Edit::Subst(pos, ch), Edit::Insert(pos, ch), Edit::Delete(pos)] {
-                    if check_edit(&signed, &sig, &e, cause)? {
+                    if check_edit(&signed, &content, &e, cause)? {
                         report.case(Some(&(content.as_str(), format!("{e:?}"))), &["edit-outside-signature"]);
                     } else {
                         report.label("edit-skipped(inside signature digits / no-op)");
@@ -327,7 +332,7 @@ pub fn run(args: &Args) {
                 1 => Edit::Insert(pos, *ch),
                 _ => Edit::Delete(pos),
             };
-            if check_edit(&signed, &md5_hex(&content), &e, cause)? {
+            if check_edit(&signed, &content, &e, cause)? {
                 report.case(Some(&(content.as_str(), format!("{e:?}"))), &["targeted-edit"]);
             } else {
                 report.case::<str>(None, &["targeted-edit-skipped"]);
